@@ -256,6 +256,23 @@ unsafe impl<P: Pad> Trace for Node<P> {
             return;
         }
         let limit = director::on_trace(o);
+        #[cfg(feature = "weak")]
+        if limit.is_none() && director::on_trace_probe(o) {
+            // A Trace impl that clones (and drops) one of its Weak fields: nothing in the Trace contract forbids it.
+            // Debug builds refuse it with a panic ("Cannot clone while tracing!"), release builds allow it.
+            let w = self.wslots.try_borrow().ok().and_then(|ws| ws.iter().find_map(|s| s.inner.as_ref().map(|w| w as *const weak::Weak<Node<P>>)));
+            if let Some(wp) = w {
+                emit(json!({"e": "probe", "what": "clonew-in-trace", "o": o}));
+                let r = std::panic::catch_unwind(std::panic::AssertUnwindSafe(|| unsafe { (*wp).clone() }));
+                match r {
+                    Ok(c) => drop(c),
+                    Err(pl) => {
+                        emit(json!({"e": "cbx", "cb": "trace", "o": o, "panic": true, "j": 0}));
+                        std::panic::resume_unwind(pl);
+                    }
+                }
+            }
+        }
         let mut reported = 0usize;
         {
             let slots = self.slots.borrow();
